@@ -46,6 +46,26 @@ def mixed_tree(r, variant):
         spec = [F("f", 150000, 9, mode=0o604, mtime_ns=1_000_000_000_000_000_777)]
         pre = [F("g", 99, 10)]
         args = ["-w", "2", "--block-size", "64KB", "--backup", "auto", "f", "g"]
+    elif variant == 5:
+        # dereference: links to a file and to a directory (canonicalize / follow-links paths)
+        spec = [{"p": "src", "k": "d"}, F("src/a", 10, 31, mode=0o640), {"p": "src/d", "k": "d"}, F("src/d/x", 70000, 32), {"p": "out", "k": "d"}, F("out/y", 5, 33),
+                {"p": "out/od", "k": "d"}, F("out/od/z", 9, 34), {"p": "src/lf", "k": "l", "target": "../out/y"}, {"p": "src/ld", "k": "l", "target": "../out/od"},
+                {"p": "src/d/la", "k": "l", "target": "../a"}]
+        pre = []
+        args = ["-w", "2", "--block-size", "64KB", "-L", "-r", "src", "dst"]
+    elif variant == 6:
+        # gitignore parsing and filtering
+        spec = [{"p": "src", "k": "d"}, F("src/.gitignore", 0, 41), F("src/keep", 100, 42), F("src/skip.o", 5, 43), {"p": "src/build", "k": "d"}, F("src/build/x", 5, 44),
+                {"p": "src/sub", "k": "d"}, F("src/sub/keep2", 70000, 45)]
+        spec[1] = {"p": "src/.gitignore", "k": "f", "size": 0, "seed": 41, "segs": None, "text": "*.o\n/build/\n"}
+        pre = []
+        args = ["-w", "2", "--block-size", "64KB", "--gitignore", "-r", "src", "dst"]
+    elif variant == 7:
+        # special files replacing existing entries (unlink + mknod), several sources, --target-directory
+        spec = [{"p": "s1", "k": "d"}, {"p": "s1/ff", "k": "fifo", "mode": 0o600}, {"p": "s1/sk", "k": "sock", "mode": 0o644}, F("s1/a", 100, 51), F("single", 70000, 52),
+                {"p": "lnk", "k": "l", "target": "single"}]
+        pre = [{"p": "dst", "k": "d"}, {"p": "dst/s1", "k": "d"}, F("dst/s1/ff", 3, 53), {"p": "dst/s1/sk", "k": "fifo"}, F("dst/single", 5, 54)]
+        args = ["-w", "2", "--block-size", "64KB", "-r", "--target-directory", "dst", "s1", "single", "lnk"]
     elif variant >= 3:
         spec = [{"p": "src", "k": "d"}] + tree.gen_tree(r, depth=3, fanout=3, kinds=("f", "f", "d", "l"), prefix="src",
                                                         nonutf8=False, max_entries=12, xattrs=True, modes=True, mtimes=True,
@@ -60,7 +80,7 @@ def mixed_tree(r, variant):
 
 def gen_cases(tier, seed):
     r = random.Random(seed * 15485863 + 4)
-    variants = [0, 1, 2, 3, 4] if tier == "quick" else [0, 1, 2] + list(range(3, 12))
+    variants = [0, 1, 2, 3, 5, 6, 7] if tier == "quick" else [0, 1, 2] + list(range(3, 14))
     for v in variants:
         spec, pre, args = mixed_tree(r, v)
         for driver in ("parfile", "parblock"):
@@ -103,16 +123,34 @@ def expand_case(case):
 
 def obj_class(path, root, pre, post):
     rel = path[len(root):].lstrip("/")
-    side = "src" if rel == "src" or rel.startswith("src/") or rel == "f" else "dst"
+    side = "dst" if rel == "dst" or rel.startswith("dst/") or rel == "g" else "src"
     rec = pre.get(rel) or post.get(rel)
     return "%s-%s" % (side, rec["k"] if rec else "new")
 
 
 def judge(case, root, pre, post, run, res, prop_tag=""):
     """Shared exit-0 oracle (also used by C07's fault family)."""
-    src = [a for a in case["args"] if a in ("src", "f")][0]
-    dst = case["args"][-1]
-    mapping, _ = model.map_sources(pre, root, [src], dst)
+    v = case.get("variant")
+    if v == 7:
+        mapping, _ = model.map_sources(pre, root, ["s1", "single", "lnk"], "dst")
+    else:
+        src = [a for a in case["args"] if a in ("src", "f")][0]
+        dst = case["args"][-1]
+        mapping, _ = model.map_sources(pre, root, [src], dst)
+    if v == 5:
+        # -L: links become what they point to
+        exp = {"dst": "d", "dst/a": "f", "dst/d": "d", "dst/d/x": "f", "dst/lf": "f", "dst/ld": "d", "dst/ld/z": "f", "dst/d/la": "f"}
+        srcof = {"dst/a": "src/a", "dst/d/x": "src/d/x", "dst/lf": "out/y", "dst/ld/z": "out/od/z", "dst/d/la": "src/a"}
+        bad = []
+        for p_, k in exp.items():
+            d = post.get(p_)
+            if d is None or d["k"] != k:
+                bad.append(("deref-missing:" + k, "%s should be %s, is %s" % (p_, k, d["k"] if d else "absent")))
+            elif k == "f" and d.get("sha") != pre[srcof[p_]]["sha"]:
+                bad.append(("bytes", "%s differs from %s" % (p_, srcof[p_])))
+        return bad
+    if v == 6:
+        mapping = [m for m in mapping if not (m["src"].endswith(".o") or m["src"] == "src/build" or m["src"].startswith("src/build/"))]
     bad = model.check_mirror(pre, post, mapping)
     bad += model.check_meta(pre, post, mapping)
     bad += [f for f in model.check_nodes(pre, post, mapping) if f[0] == "rdev" and False]
